@@ -552,6 +552,11 @@ def main(tier, seed):
     fixed = [
         ("shadowed_builtins", "@constexpr\ndef f(a):\n    return abs(a) + max(a, 2) + min(a, 2, 3) + round(a / 4) + pow(a, 2)\nd5.Setting = f(-5)\n", "s d5 Setting 26"),
         ("library_inner_call", {"": "from library import m\nd5.Setting = m.g(3)\n", "m": "@constexpr\ndef f(x):\n    return x * 3\n@constexpr\ndef g(x):\n    return f(x) + 1\n"}, "s d5 Setting 10"),
+        ("same_name_main_and_library", {"": "from library import m\n@constexpr\ndef scale(x):\n    return x + 1\nm.show()\nd4.Setting = scale(3)\n",
+                                        "m": "@constexpr\ndef scale(x):\n    return x * 10\ndef show():\n    d5.Setting = scale(3)\n"}, "s d5 Setting 30\ns d4 Setting 4"),
+        ("same_name_two_libraries", {"": "from library import m\nfrom library import n\nm.show()\nn.show()\n",
+                                     "m": "@constexpr\ndef scale(x):\n    return x * 10\ndef show():\n    d5.Setting = scale(3)\n",
+                                     "n": "@constexpr\ndef scale(x):\n    return x - 1\ndef show():\n    d4.Setting = scale(3)\n"}, "s d5 Setting 30\ns d4 Setting 2"),
         ("unused_constexpr_emits_nothing", "@constexpr\ndef f(a):\n    return a\nd5.Setting = 1\n", "s d5 Setting 1"),
         ("hash_is_signed_crc", "@constexpr\ndef f(a):\n    return HASH(a)\nd5.Setting = f('StructureWallLight')\n", f"s d5 Setting {ic10.signed_crc('StructureWallLight')}"),
         ("bool_result", "@constexpr\ndef f(a):\n    return a > 3\nd5.Setting = f(6)\nd4.Setting = f(1)\n", "s d5 Setting 1\ns d4 Setting 0"),
@@ -566,7 +571,7 @@ def main(tier, seed):
             run.count("inconclusive_constexpr_timeouts")
             continue
         if want is not None:
-            if e is not None or code_of(r).strip() != want:
+            if e is not None or "\n".join(l.strip() for l in code_of(r).strip().split("\n")) != want:
                 run.violation(f"regression program {name}: unexpected result", {"kind": "fixed", "name": name, "source": src, "expected": want, "result": e or code_of(r)})
         else:
             if e is not None and "Internal compiler error" in e:
